@@ -118,7 +118,9 @@ def body_E1(ctx):
 
         return ser
 
-    fields = [Field(n, mk(n), "") for n in names]
+    # the last declared field is an identity field made by Field.for_types (no custom serializer)
+    identity = set(names[-1:]) if sh.get("identity_field", 1) else set()
+    fields = [Field.for_types(n, [int, list], "") if n in identity else Field(n, mk(n), "") for n in names]
     MT = MessageType("c13:m", list(fields), "")
     AT = ActionType("c13:a", list(fields), list(fields), "")
     kind = ["message", "start", "success"][ctx.choose(3, "message kind")]
@@ -126,7 +128,7 @@ def body_E1(ctx):
     # fault subset: per declared field one of ok / raises / missing
     status = {}
     for n in names:
-        status[n] = ["ok", "raises", "missing"][ctx.choose(3, "fault " + n)]
+        status[n] = (["ok", "missing"] if n in identity else ["ok", "raises", "missing"])[ctx.choose(2 if n in identity else 3, "fault " + n)]
     raising.update(n for n in names if status[n] == "raises")
     bad = any(v != "ok" for v in status.values())
     values = {n: i + 10 for i, n in enumerate(names) if status[n] != "missing"}
@@ -184,6 +186,9 @@ def body_E1(ctx):
         ctx.check(len(typed) == 1 and not tbs and not sfs, "clean %s: window %r", kind, [(m.get("message_type") or m.get("action_status")) for m in window])
         m = typed[0]
         for n in names:
+            if n in identity:
+                ctx.check(m[n] == allvalues[n], "identity field %s delivered as %r", n, m[n])
+                continue
             ctx.check(m[n] == ["ser", allvalues[n]], "field %s delivered as %r", n, m[n])
             ctx.check(calls_seen.get(n) == 1, "serializer of %s was called %r times for one delivered message", n, calls_seen.get(n))
         ctx.check(m["extra"] == 1, "undeclared field changed")
@@ -236,6 +241,6 @@ OBLIGATIONS = [
         shards={"quick": [{"fields": 2, "depth": 2}], "thorough": [{"fields": 3, "depth": 3}]},
         twin=[{"fields": 2, "depth": 2, "twin_label": "fault-nested"}],
         timeout={"quick": 100, "thorough": 600},
-        bounds={"quick": "2 declared fields each ok/raising/missing, 3 message kinds, nesting depth 0-2", "thorough": "3 declared fields, depth 0-3"},
+        bounds={"quick": "2 declared fields (one custom serializer: ok/raising/missing; one Field.for_types identity field: ok/missing), 3 message kinds, nesting depth 0-2", "thorough": "3 declared fields, depth 0-3"},
     ),
 ]
